@@ -59,9 +59,8 @@ Definition wf_other (s : bytes) : bool :=
 Definition wf_addr (a : a_addr) : bool :=
   match a with AASip u => wf_sipuri u | AAOther s => wf_other s end.
 Definition wf_nameaddr (n : a_nameaddr) : bool := display_ok (an_display n) && wf_addr (an_addr n).
-(* inside a comma-separated list the display name must not be blank-only: parseRouteParam
-   keeps leading blanks as part of the display name, so any display name is fine *)
-Definition wf_relem (r : a_relem) : bool := wf_nameaddr (ar_na r) && forallb wf_param (ar_params r).
+(* [wf_relem] (Route / Record-Route element) is stated below, after [rp_params]: it mentions the
+   text of the parameter tail *)
 (* bare addr-spec form (RFC 3261 20.10: only when the URI has no ';' '?' ','): a SIP URI without
    parameters and headers, or another URI without ';' *)
 Definition wf_bare (a : a_addr) : bool :=
@@ -83,6 +82,17 @@ Definition wf_cseq (c : a_cseq) : bool :=
 Definition rp_param (p : a_param) : bytes :=
   match ap_val p with Some v => ap_key p ++ "="%char :: v | None => ap_key p end.
 Definition rp_params (l : list a_param) : bytes := flat_map (fun p => ";"%char :: rp_param p) l.
+(* Route / Record-Route element.  Inside a comma-separated list the display name must not be
+   blank-only: parseRouteParam keeps leading blanks as part of the display name, so any display
+   name is fine.  parseRouteParam applies strings.TrimSpace to the text after '>', and TrimSpace
+   strips Unicode white space, not only ASCII blanks: [val_char] / [safe_char] allow bytes >= 128,
+   so the text of the parameter tail must not END with the UTF-8 encoding of a Unicode space
+   (U+0085, U+00A0, U+1680, U+2000..U+200A, U+2028, U+2029, U+202F, U+205F, U+3000) — such an
+   ending would be cut off the last parameter.  (It begins with ';', and ASCII blanks are
+   excluded by [wf_param].) *)
+Definition wf_relem (r : a_relem) : bool :=
+  wf_nameaddr (ar_na r) && forallb wf_param (ar_params r) &&
+  negb (ends_with_uspace (rp_params (ar_params r))).
 Definition rp_port (p : option Z) : bytes := match p with Some z => ":"%char :: itoa z | None => [] end.
 Definition rp_sipuri (u : a_sipuri) : bytes :=
   (if au_secure u then s2b "sips:" else s2b "sip:") ++
